@@ -157,7 +157,28 @@ def mon_c04(sc, prof, pairs):
     return out
 
 
-MONITORS = {"C04": mon_c04, "C01": mon_c01, "C02": mon_c02, "C03": mon_c03, "C08": mon_c08}
+def mon_c09(sc, prof, pairs):
+    """trait dispatch: same result / panic / contents as Vec<T> (hence as the inherent API, C01);
+    range-bounds slicing selects what std indexing with the same bounds selects"""
+    out = []
+    for i, s in pairs:
+        if i["step"] == "end": continue
+        line = sc.lines[int(i["step"])]
+        w = line.split()
+        if not (w[0].startswith("t") and (w[0][1:] in ("push", "pop", "insert", "remove", "swap_remove", "replace", "truncate", "clear", "append", "split_off", "new", "get", "len")) or w[0] == "bounds"):
+            continue
+        sub = w[0] if w[0] != "tget" else f"tget:{w[3]}"
+        for f in ("status", "ret", "regs"):
+            if i.get(f) != s.get(f):
+                out.append(Failure(sc, prof, i["step"], f"{line}: {f}: soa={i.get(f)} std={s.get(f)}", f"C09:{sub}:{f}", {"I": i["raw"], "S": s["raw"]}))
+                break
+        else:
+            if i.get("inb", "true") != "true":
+                out.append(Failure(sc, prof, i["step"], f"{line}: view outside the initialised part", f"C09:{sub}:inbounds", {"I": i["raw"]}))
+    return out
+
+
+MONITORS = {"C09": mon_c09, "C04": mon_c04, "C01": mon_c01, "C02": mon_c02, "C03": mon_c03, "C08": mon_c08}
 
 
 def _meta_clonefuse(self, step):
